@@ -182,6 +182,30 @@ def centreInside (d : (K × K) × (K × K) × (K × K) × (K × K)) : Bool :=
 
 end sphere
 
+/-! ## disks from a spherical centre and a Fubini–Study radius -/
+
+section fs
+variable {K : Type*} [Field K]
+
+abbrev V3 (K : Type*) := K × K × K
+
+def dot3 (a b : V3 K) : K := a.1 * b.1 + a.2.1 * b.2.1 + a.2.2 * b.2.2
+
+/-- `r00 * (q @ t)` for the matrix `q` with columns `q0, q1, q2` -/
+def fsPoint (q0 q1 q2 : V3 K) (r00 : K) (t : V3 K) : V3 K :=
+  (r00 * (t.1 * q0.1 + t.2.1 * q1.1 + t.2.2 * q2.1),
+   r00 * (t.1 * q0.2.1 + t.2.1 * q1.2.1 + t.2.2 * q2.2.1),
+   r00 * (t.1 * q0.2.2 + t.2.1 * q1.2.2 + t.2.2 * q2.2.2))
+
+/-- `CP1Disk._compute_proj_data(center, rad, "fs")`: the three boundary points on the sphere.
+`q, r = np.linalg.qr(center column, mode="complete")` is a CONTRACT (`q` orthogonal with columns
+`q0, q1, q2`, `q0 * r00 = center`); `c2 = cos(2 rad)`, `s2 = sin(2 rad)` are supplied.
+`p1_t = (c2, s2, 0)`, `p2_t = (c2, -s2, 0)`, `p3_t = (c2, 0, s2)` -/
+def fsBoundary (q0 q1 q2 : V3 K) (r00 c2 s2 : K) : V3 K × V3 K × V3 K :=
+  (fsPoint q0 q1 q2 r00 (c2, s2, 0), fsPoint q0 q1 q2 r00 (c2, -s2, 0), fsPoint q0 q1 q2 r00 (c2, 0, s2))
+
+end fs
+
 /-! ## Möbius maps, cross-ratio, inversion (any field) -/
 
 section mobius
@@ -284,6 +308,21 @@ def intersectsSpec (sAff oAff : Bool) (d r1 r2 : K) : Prop :=
   | false, true => ¬ (d + r2 < r1)     -- disc₂ not inside disc₁
   | true, false => ¬ (d + r1 < r2)     -- disc₁ not inside disc₂
   | false, false => True               -- both contain ∞
+
+/-- the finite points of a disk of CP¹ whose boundary circle is `(c, r)`: its bounded side
+(`bounded = true`) or its unbounded side; `strict` leaves the circle itself out -/
+def memDisk (bounded strict : Bool) (c : K × K) (r : K) (z : K × K) : Prop :=
+  match bounded, strict with
+  | true, true => (z.1 - c.1) * (z.1 - c.1) + (z.2 - c.2) * (z.2 - c.2) < r * r
+  | true, false => (z.1 - c.1) * (z.1 - c.1) + (z.2 - c.2) * (z.2 - c.2) ≤ r * r
+  | false, true => r * r < (z.1 - c.1) * (z.1 - c.1) + (z.2 - c.2) * (z.2 - c.2)
+  | false, false => r * r ≤ (z.1 - c.1) * (z.1 - c.1) + (z.2 - c.2) * (z.2 - c.2)
+
+/-- the point at infinity belongs exactly to the disks that are the unbounded side -/
+def memInf (bounded : Bool) : Prop := bounded = false
+
+/-- general position of two circles: not tangent (internally or externally) -/
+def GenPos (d r1 r2 : K) : Prop := d + r2 ≠ r1 ∧ d + r1 ≠ r2 ∧ r1 + r2 ≠ d
 
 end logic
 
